@@ -6,6 +6,7 @@ import (
 	"context"
 	"encoding/json"
 	"fmt"
+	wrapping "github.com/hashicorp/go-kms-wrapping/v2"
 	"io"
 	"net/url"
 	"os"
@@ -60,6 +61,16 @@ type P struct {
 	Extra  map[string]interface{}
 	N      int
 }
+
+// rotationEvent implements encrypt.RotateWrapper (no new wrapper, new salt and info).
+type rotationEvent struct {
+	Note       string
+	salt, info []byte
+}
+
+func (r *rotationEvent) Wrapper() wrapping.Wrapper { return nil }
+func (r *rotationEvent) HmacSalt() []byte          { return r.salt }
+func (r *rotationEvent) HmacInfo() []byte          { return r.info }
 
 // plainBuf is deliberately NOT synchronised: writer.Sink's own lock must serialise writes.
 type lockedBuf struct {
@@ -137,6 +148,7 @@ func runComp(t interface{ Fatalf(string, ...any) }, root string, caseNo int, spe
 	var stopDrain []chan struct{}
 	var drainWG sync.WaitGroup
 	keys := []cryptoref.Key{cryptoref.NewKey(1), cryptoref.NewKey(2)}
+	sharedSalt, sharedInfo := []byte("s"), []byte("i")
 	get := func(kind string, share int, formatKeyName string) (string, eventlogger.Node) {
 		id := fmt.Sprintf("%s-%d", kind, share)
 		if kind == "file" || kind == "writer" || kind == "chan" || kind == "filetwin" || kind == "filebroken" {
@@ -150,7 +162,9 @@ func runComp(t interface{ Fatalf(string, ...any) }, root string, caseNo int, spe
 		case "filter":
 			n = &eventlogger.Filter{Predicate: func(e *eventlogger.Event) (bool, error) { return true, nil }}
 		case "encrypt":
-			f := &encrypt.Filter{Wrapper: keys[0].Wrapper(), HmacSalt: []byte("s"), HmacInfo: []byte("i")}
+			// every encrypt filter of the composition is configured from the same salt / info values, as an
+			// application that builds its filters from one configuration struct does
+			f := &encrypt.Filter{Wrapper: keys[0].Wrapper(), HmacSalt: sharedSalt, HmacInfo: sharedInfo}
 			encs = append(encs, f)
 			n = f
 		case "gated":
@@ -333,6 +347,9 @@ func runComp(t interface{ Fatalf(string, ...any) }, root string, caseNo int, spe
 				switch {
 				case hasGated && i%2 == 0:
 					payload = &gated.Payload{ID: fmt.Sprintf("g%d", s), Flush: i%10 == 8, Header: map[string]interface{}{"user": "alice"}, Detail: map[string]interface{}{"i": i}}
+				case len(encs) > 0 && i%17 == 5:
+					// a key-rotation event (same-length salt / info): consumed by the encrypt filters of its type
+					payload = &rotationEvent{salt: []byte{byte('a' + i%26)}, info: []byte{byte('A' + s%26)}}
 				case i%3 == 1:
 					payload = map[string]interface{}{"name": "bob", "n": i, "list": []string{"a", "b"}}
 				default:
